@@ -563,7 +563,8 @@ def mn_do_slw(ir, instr, ra, rs, rb):
     return ret, []
 
 def mn_do_sraw(ir, instr, ra, rs, rb):
-    rvalue = ExprCond(rb[5:6], ExprInt(0xFFFFFFFF, 32),
+    rvalue = ExprCond(rb[5:6],
+                      ExprCond(rs.msb(), ExprInt(0xFFFFFFFF, 32), ExprInt(0, 32)),
                       ExprOp('a>>', rs, rb & ExprInt(0b11111, 32)))
     ret = [ ExprAssign(ra, rvalue) ]
 
@@ -593,7 +594,8 @@ def mn_do_srawi(ir, instr, ra, rs, imm):
     return ret, []
 
 def mn_do_srw(ir, instr, ra, rs, rb):
-    rvalue = rs >> (rb & ExprInt(0b11111, 32))
+    rvalue = ExprCond(rb[5:6], ExprInt(0, 32),
+                      rs >> (rb & ExprInt(0b11111, 32)))
     ret = [ ExprAssign(ra, rvalue) ]
 
     if instr.name[-1] == '.':
